@@ -532,7 +532,13 @@ func (c *compiler) compileBind(l, r *Query, patterns []*Pattern) error {
 		return err
 	}
 	var pc int
-	var vs [][2]int
+	var vs, all [][2]int
+	if len(patterns) > 1 {
+		// declare the variables of all the alternatives beforehand
+		for _, p := range patterns {
+			all = c.declarePatternVariables(all, p)
+		}
+	}
 	for i, p := range patterns {
 		var pcc int
 		var err error
@@ -541,11 +547,10 @@ func (c *compiler) compileBind(l, r *Query, patterns []*Pattern) error {
 				return &code{op: opforkalt, v: pcc}
 			})()
 		}
-		if 0 < i {
-			for _, v := range vs {
-				c.append(&code{op: oppush, v: nil})
-				c.append(&code{op: opstore, v: v})
-			}
+		// variables not bound by this alternative should be null
+		for _, v := range all {
+			c.append(&code{op: oppush, v: nil})
+			c.append(&code{op: opstore, v: v})
 		}
 		if vs, err = c.compilePattern(vs[:0], p); err != nil {
 			return err
@@ -566,6 +571,24 @@ func (c *compiler) compileBind(l, r *Query, patterns []*Pattern) error {
 		c.append(&code{op: opexpend})
 	}
 	return c.compileQuery(r)
+}
+
+func (c *compiler) declarePatternVariables(vs [][2]int, p *Pattern) [][2]int {
+	if p.Name != "" {
+		return append(vs, c.pushVariable(p.Name))
+	}
+	for _, p := range p.Array {
+		vs = c.declarePatternVariables(vs, p)
+	}
+	for _, kv := range p.Object {
+		if kv.Key != "" && kv.Key[0] == '$' {
+			vs = append(vs, c.pushVariable(kv.Key))
+		}
+		if kv.Val != nil {
+			vs = c.declarePatternVariables(vs, kv.Val)
+		}
+	}
+	return vs
 }
 
 func (c *compiler) compilePattern(vs [][2]int, p *Pattern) ([][2]int, error) {
